@@ -29,6 +29,27 @@ def s_of(n):
     return '"' + "a" * (n - 2) + '"'
 
 
+def text_of(n, shape):
+    """A JSON text of exactly n characters in the given shape (what is measured is the text as it was sent)."""
+    if shape == "string":
+        return s_of(n)
+    if shape == "padded":            # insignificant whitespace: re-serialising the parsed value gives a SHORTER text
+        core = '{"a": "%s"}' % ("p" * 1000)
+        return core[:-1] + " " * (n - len(core)) + "}"
+    if shape == "compact":           # no spaces after separators: re-serialising gives a LONGER text
+        items = ",".join("1" for _ in range(2000))
+        head = '{"k":[%s],"s":"' % items
+        return head + "c" * (n - len(head) - 2) + '"}'
+    if shape == "nested":
+        head = '{"a": {"b": [true, null, {"c": "'
+        tail = '"}]}}'
+        return head + "n" * (n - len(head) - len(tail)) + tail
+    raise ValueError(shape)
+
+
+SHAPES = ["padded", "compact", "nested"]
+
+
 def verdict(ok_expected, got_ok, place, size, limit, detail):
     if ok_expected != got_ok:
         return [{"property": PROP, "rule": "boundary", "witness": place,
@@ -47,10 +68,15 @@ def run_case(case, extra):
     place, delta = case
     findings = []
     info = {"place": place, "delta": delta}
+    shape = "string"
+    if ":" in place:
+        place, shape = place.split(":")
+    info["shape"] = shape
     if place == "start-execution-input":
         w = World(1, execution_ttl=600)
         arn = w.create_machine("m", {"StartAt": "P", "States": {"P": {"Type": "Pass", "Result": 1, "End": True}}})
-        text = s_of(L + delta)
+        text = text_of(L + delta, shape)
+        assert len(text) == L + delta
         rec = w.api_sync(w.nodes[0], "StartExecution", {"stateMachineArn": arn, "name": "e", "input": text})
         ok = rec["status"] == 200
         findings += verdict(delta <= 0, ok, place, len(text), L, "%s %s" % (rec["status"], (rec["body"] or "")[:80]))
@@ -60,7 +86,7 @@ def run_case(case, extra):
     elif place == "start-sync-execution-input":
         w = World(1, execution_ttl=600)
         arn = w.create_machine("m", {"StartAt": "P", "States": {"P": {"Type": "Pass", "Result": 1, "End": True}}}, "EXPRESS")
-        text = s_of(L + delta)
+        text = text_of(L + delta, shape)
         rec = w.api_sync(w.nodes[0], "StartSyncExecution", {"stateMachineArn": arn, "name": "e", "input": text})
         ok = rec["status"] == 200
         findings += verdict(delta <= 0, ok, place, len(text), L, "%s %s" % (rec["status"], (rec["body"] or "")[:80]))
@@ -91,13 +117,17 @@ def run_case(case, extra):
         if place == "callback-output":
             w.run_until(lambda: len(w.workers.requests) > 0, limit=10, what="callback request")
             token = w.workers.requests[0]["payload"]["token"]
-            text = s_of(n)
+            text = text_of(n, shape)
             rec = w.api_sync(w.nodes[0], "SendTaskSuccess", {"taskToken": token, "output": text})
             api_ok = rec["status"] == 200
             findings += verdict(delta <= 0, api_ok, "send-task-success-output", len(text), L, "%s %s" % (rec["status"], (rec["body"] or "")[:80]))
             if not api_ok:
                 if (rec["json"] or {}).get("__type") != "InvalidOutput":
                     findings.append({"property": PROP, "rule": "error-type", "witness": place, "detail": rec["body"][:200]})
+                return summarize(w, case, findings, info)
+            if shape != "string":
+                # the engine re-serialises the value, so the size of the state's output is not the size that was sent
+                w.run_quiescent(limit=700)
                 return summarize(w, case, findings, info)
         w.run_quiescent(limit=700)
         t = terminal(w, ex)
@@ -207,8 +237,29 @@ def run_case(case, extra):
         elif len(h) > 25000 + 10:
             findings.append({"property": PROP, "rule": "history-limit", "witness": None,
                              "detail": "history grew to %d events" % len(h)})
+    elif place == "history-limit-retry":
+        # no state is ever entered again: the history grows by LambdaFunctionScheduled / LambdaFunctionFailed per attempt
+        d = {"StartAt": "T", "States": {"T": {"Type": "Task", "Resource": F + "bad", "End": True, "Retry": [
+            {"ErrorEquals": ["States.ALL"], "IntervalSeconds": 1, "BackoffRate": 1.0, "MaxAttempts": 99999999}]}}}
+        w = World(1, execution_ttl=86400, max_steps=600000, script={"bad": [{"err": "E.Always", "delay": 0.0}]},
+                  functions=["bad"])
+        arn = w.create_machine("m", d)
+        ex = w.start(arn, {"n": 0}, name="e")
+        w.run_until(lambda: terminal(w, ex) is not None or
+                    len(w.nodes[0].state_engine.execution_history.get(ex, [])) > 25000 + 40, limit=80000,
+                    what="history limit through retries")
+        t = terminal(w, ex)
+        h = w.nodes[0].state_engine.execution_history.get(ex, [])
+        info["history_events"] = len(h)
+        if t is None or t["status"] != "FAILED" or len(h) > 25000 + 10:
+            findings.append({"property": PROP, "rule": "history-limit", "witness": "retry",
+                             "detail": "a Task retried for ever: execution %r with %d history events" % (
+                                 t and (t["status"], t.get("error")), len(h))})
+        elif t.get("error") != "States.ExecutionHistoryLimitExceeded":
+            findings.append({"property": PROP, "rule": "error-type", "witness": place, "detail": repr(t.get("error"))})
     else:
         raise ValueError(place)
+    case = (case[0], case[1])
     return summarize(w, case, findings, info)
 
 
@@ -238,8 +289,10 @@ def main(argv):
         return 1 if same else 0
     tier = common.tier()
     cases = [(p, d) for p in PLACES for d in DELTAS] + [("definition-empty", 0), ("names", 0)]
-    if tier == "thorough" or True:
-        cases.append(("history-limit", 0))
+    cases += [("%s:%s" % (p, sh), d) for p in ("start-execution-input", "start-sync-execution-input", "callback-output")
+              for sh in SHAPES for d in DELTAS]
+    cases.append(("history-limit", 0))
+    cases.append(("history-limit-retry", 0))
     rep = common.Report(PROP)
     for r in common.run_batch("checks.c16", "run_case", cases, {}, chunk=1):
         rep.absorb(r)
@@ -249,8 +302,9 @@ def main(argv):
              "driven to StartExecution input, StartSyncExecution input, SendTaskSuccess output (then the task result), "
              "Pass output, task reply, Task output grown by ResultSelector, Parallel and Map output after the join (one "
              "character of separator slack accepted); definitions of 1048576-2..+2 characters and empty; names of length "
-             "0, 1, 80, 81 and one per forbidden character for state machines and executions; a counting loop driven "
-             "past 25000 history events; accepted <=> size <= L with the documented error type / "
+             "0, 1, 80, 81 and one per forbidden character for state machines and executions; the three API inputs "
+             "also as texts whose re-serialisation is shorter (whitespace padded) or longer (compact separators) than what "
+             "was sent; a counting loop and a Task retried for ever, each driven past 25000 history events; accepted <=> size <= L with the documented error type / "
              "States.DataLimitExceeded otherwise; 'exhaustive' = the listed +-2 windows are enumerated completely",
         assumptions=["ASCII payloads only (characters = bytes = JSON text length)",
                      "single schedule: these are size boundaries, the simulator is used to reach the enforcement points"])
